@@ -328,6 +328,11 @@ def run(ctx):
     for f, (rq, unp) in eng.memo.items():
         if f.file.endswith("attr_path.c"):
             for u in unp:
+                from .C10 import unreachable_formatter
+                why = unreachable_formatter(P, f, u)
+                if why:
+                    r4.note("not armed: %s - %s" % (u["key"], why))
+                    continue
                 r4.violation(u["key"], "access not provably within bounds: %s <= %s (in %s)" % (u["size"], u["cap"], f.name), loc=u["loc"])
     r4.obligations += eng.stats["proved"]
     r4.discharged += eng.stats["proved"]
